@@ -7,6 +7,7 @@ package main
 
 import (
 	"bytes"
+	"compress/gzip"
 	"encoding/binary"
 	"fmt"
 	"math"
@@ -14,6 +15,7 @@ import (
 	"strconv"
 	"strings"
 	"unicode"
+	"unicode/utf16"
 )
 
 //-----------------------------------------------------------------------------
@@ -402,6 +404,75 @@ func c14BuildSystematic() {
 		}
 		sb.WriteString("endsolid big\n")
 		add("sys-ascii-big-bad-number", []byte(sb.String()))
+	}
+	// files that announce a container or a text encoding in their first bytes (what a loader that sniffs formats would act
+	// on): compressed wrappers with honest, lying and truncated length fields and highly compressible payloads; byte order
+	// marks followed by complete, truncated and ill-formed UTF-16 / UTF-32 text
+	{
+		bin := func(n int, fill byte) []byte {
+			b := make([]byte, 84+50*n)
+			binary.LittleEndian.PutUint32(b[80:], uint32(n))
+			for i := 84; i < len(b); i++ {
+				b[i] = fill
+			}
+			return b
+		}
+		asc := "solid a\nfacet normal 0 0 1\nouter loop\nvertex 0 0 0\nvertex 1 0 0\nvertex 0 1 0\nendloop\nendfacet\nendsolid a\n"
+		gz := func(payload []byte) []byte {
+			var zb bytes.Buffer
+			zw, _ := gzip.NewWriterLevel(&zb, gzip.BestCompression)
+			zw.Write(payload)
+			zw.Close()
+			return zb.Bytes()
+		}
+		g1 := gz(bin(3, 0))
+		add("sys-gzip", g1)
+		add("sys-gzip", gz([]byte(asc)))
+		add("sys-gzip", g1[:len(g1)/2])                       // truncated stream
+		add("sys-gzip", gz(bin(200000, 0)))                   // 10 MB of zeros in ~10 KB
+		add("sys-gzip", gz(bytes.Repeat([]byte(asc), 40000))) // 4 MB of text in a few KB
+		lie := append([]byte{}, g1...)                        // honest stream, length field (last 4 bytes) claims 512 MiB
+		binary.LittleEndian.PutUint32(lie[len(lie)-4:], 512<<20)
+		add("sys-gzip", lie)
+		hdr := []byte{0x1f, 0x8b, 8, 0, 0, 0, 0, 0, 0, 3} // bare header + CRC + huge length
+		add("sys-gzip", append(append(append([]byte{}, hdr...), 3, 0, 0, 0, 0, 0), 0, 0, 0, 0x20))
+		add("sys-gzip", append(append([]byte{}, hdr...), 0xff, 0xff, 0xff, 0x7f))
+		for _, magic := range [][]byte{[]byte("PK\x03\x04"), []byte("BZh9"), {0xfd, '7', 'z', 'X', 'Z', 0}, {0x28, 0xb5, 0x2f, 0xfd}, []byte("7z\xbc\xaf\x27\x1c")} {
+			add("sys-container-magic", append(append([]byte{}, magic...), bin(2, 0x41)...))
+			add("sys-container-magic", append(append([]byte{}, magic...), 0xff, 0xff, 0xff, 0xff, 0xff, 0xff, 0xff, 0x7f))
+		}
+		put16 := func(order binary.ByteOrder, x uint16) []byte {
+			b := make([]byte, 2)
+			order.PutUint16(b, x)
+			return b
+		}
+		u16 := func(s string, order binary.ByteOrder) []byte {
+			var out []byte
+			for _, ru := range utf16.Encode([]rune(s)) {
+				out = append(out, put16(order, ru)...)
+			}
+			return out
+		}
+		le, be := []byte{0xff, 0xfe}, []byte{0xfe, 0xff}
+		for _, v := range []struct {
+			bom   []byte
+			order binary.ByteOrder
+		}{{le, binary.LittleEndian}, {be, binary.BigEndian}} {
+			full := append(append([]byte{}, v.bom...), u16(asc, v.order)...)
+			add("sys-bom-utf16", full)
+			add("sys-bom-utf16", full[:len(full)-1])                                           // cut inside a code unit
+			add("sys-bom-utf16", append(append([]byte{}, full...), put16(v.order, 0xd83d)...)) // ends with a lone high surrogate
+			add("sys-bom-utf16", append(append([]byte{}, v.bom...), put16(v.order, 0xd800)...))
+			add("sys-bom-utf16", append(append([]byte{}, v.bom...), put16(v.order, 0xdc00)...)) // lone low surrogate
+			emoji := append(append([]byte{}, v.bom...), u16("solid \U0001F600\n"+asc[8:], v.order)...)
+			add("sys-bom-utf16", emoji)
+			add("sys-bom-utf16", emoji[:2+2*7]) // cut between the two halves of a surrogate pair
+			add("sys-bom-utf16", append([]byte{}, v.bom...))
+		}
+		add("sys-bom-utf8", append([]byte{0xef, 0xbb, 0xbf}, asc...))
+		add("sys-bom-utf8", append([]byte{0xef, 0xbb, 0xbf}, bin(1, 7)...))
+		add("sys-bom-utf32", append([]byte{0xff, 0xfe, 0, 0}, []byte("s\x00\x00\x00o\x00\x00\x00l\x00\x00\x00")...))
+		add("sys-bom-utf32", append([]byte{0, 0, 0xfe, 0xff}, 0, 0, 0xd8))
 	}
 	// files shorter than the header
 	for n := 0; n < 84; n++ {
